@@ -281,7 +281,9 @@ func (cmd *mainCmd) Run(args []string) error {
 		filename := sourcePath.Absolute
 		content, err := os.ReadFile(filename)
 		if err != nil {
-			return err
+			log.Printf("%s: failed: %v", filename, err)
+			errors = append(errors, fmt.Errorf("could not read %q: %v", filename, err))
+			continue
 		}
 		f, err := parser.ParseFile(fset, filename, content /* src */, parser.AllErrors|parser.ParseComments)
 		if err != nil {
